@@ -3,6 +3,8 @@ From Coq Require Import ZArith List Bool Arith Lia.
 From C15 Require Import Table.
 Import ListNotations.
 Local Open Scope Z_scope.
+(* robustness: a regenerated term that makes a tactic run away fails the proof (prove BROKEN) instead of hanging the build *)
+Set Default Timeout 300.
 
 Ltac tdm :=
   repeat match goal with
@@ -14,7 +16,7 @@ Lemma dt_rejected_call_is_identity s o s' : tstep s o = (s', TRej) -> s' = s.
 Proof. destruct o; cbn [tstep]; cbv zeta; tdm; intro H; inversion H; reflexivity. Qed.
 
 Lemma dt_step_monotone s o : (cver s <= cver (fst (tstep s o)))%nat /\ (rver s <= rver (fst (tstep s o)))%nat.
-Proof. destruct o; cbn [tstep]; cbv zeta; tdm; cbn [fst cver rver tset tupd]; lia. Qed.
+Proof. destruct o; cbn [tstep]; cbv zeta; tdm; cbn [fst cver rver tset tbset tupd]; lia. Qed.
 Lemma dt_versions_monotone ops : forall s, (cver s <= cver (trun s ops))%nat /\ (rver s <= rver (trun s ops))%nat.
 Proof.
   induction ops as [|o t IH]; intros s; simpl; [lia|].
@@ -66,7 +68,7 @@ Definition tinv (s : tstate) : Prop :=
 Lemma dt_rows_persist s o id :
   rver (fst (tstep s o)) = rver s -> In id (map fst (rows s)) -> In id (map fst (rows (fst (tstep s o)))).
 Proof.
-  destruct o; cbn [tstep]; cbv zeta; tdm; cbn [fst rver rows tset tupd]; intros E H; auto; try lia.
+  destruct o; cbn [tstep]; cbv zeta; tdm; cbn [fst rver rows tset tbset tupd]; intros E H; auto; try lia.
   - rewrite map_app, in_app_iff. auto.
   - rewrite <- (firstn_skipn i (rows s)) in H. rewrite map_app, in_app_iff in *. simpl. tauto.
   - unfold set_val. rewrite map_map. apply in_map_iff in H. destruct H as ((x, w) & Hx & Hin). simpl in Hx. subst x.
@@ -105,7 +107,7 @@ Proof.
                              (forall id, In id (tids (ths s' i)) -> In id (tids (ths s j)))) \/
           (tsnap (ths s' i) = rver s' /\ forall id, In id (tids (ths s' i)) -> In id (map fst (rows s'))) \/
           ttid (ths s' i) <> Some 0%nat).
-  { subst s'. destruct o; cbn [tstep]; cbv zeta; tdm; cbn [fst ths tset tupd rver rows];
+  { subst s'. destruct o; cbn [tstep]; cbv zeta; tdm; cbn [fst ths tset tbset tupd rver rows];
       try (left; exists i; auto; fail);
       destruct (Nat.eqb i _) eqn:Ei; try (left; exists i; auto; fail);
       try (right; right; cbn [ttid]; discriminate).
@@ -208,3 +210,73 @@ Proof.
   cbn [tstep]; cbv zeta. unfold tself. rewrite Sel, Hc, Hs, Nat.eqb_refl. simpl.
   destruct (tids (ths s i)); eauto.
 Qed.
+
+(* ---------- index look-up handles: FindByMultiHash bounds (grow round 4) ---------- *)
+(* every operation either leaves both versions and the rows alone or bumps changeVersion *)
+Lemma dt_unchanged_or_change_bumped s o :
+  (cver (fst (tstep s o)) = cver s /\ rver (fst (tstep s o)) = rver s /\ rows (fst (tstep s o)) = rows s) \/
+  (cver s < cver (fst (tstep s o)))%nat.
+Proof. destruct o; cbn [tstep]; cbv zeta; tdm; cbn [fst cver rver rows tset tbset tupd]; auto; right; lia. Qed.
+(* invariant: a bounds handle whose changeVersion snapshot is current also has a current removeVersion snapshot, and every raw it
+   holds is a row of the table with the looked-up item *)
+Definition binv (s : tstate) : Prop :=
+  forall i, bok (tbs s i) = true ->
+    (bcsnap (tbs s i) <= cver s)%nat /\
+    (bcsnap (tbs s i) = cver s ->
+       brsnap (tbs s i) = rver s /\ forall id, In id (bids (tbs s i)) -> In (id, bval (tbs s i)) (rows s)).
+Lemma In_filter_value (v : Z) (l : list (nat * Z)) id :
+  In id (map fst (filter (fun e => snd e =? v) l)) -> In (id, v) l.
+Proof.
+  intros H. apply in_map_iff in H. destruct H as ((x, w) & E & H). apply filter_In in H. destruct H as (H & Q).
+  simpl in E, Q. apply Z.eqb_eq in Q. subst. exact H.
+Qed.
+Lemma binv_step s o : binv s -> binv (fst (tstep s o)).
+Proof.
+  intros I i. set (s' := fst (tstep s o)).
+  assert (Hcase : tbs s' i = tbs s i \/
+            (bcsnap (tbs s' i) = cver s' /\ brsnap (tbs s' i) = rver s' /\
+             forall id, In id (bids (tbs s' i)) -> In (id, bval (tbs s' i)) (rows s'))).
+  { subst s'. destruct o; cbn [tstep]; cbv zeta; tdm; cbn [fst tbs tset tbset tupd cver rver rows]; auto.
+    destruct (Nat.eqb i slot); auto. right. cbn [bcsnap brsnap bids bval]. repeat split.
+    intros id H. apply In_filter_value; exact H. }
+  intros Hok. destruct Hcase as [E|(A & B & C)].
+  - rewrite E in *. destruct (I i Hok) as (L & R).
+    pose proof (dt_unchanged_or_change_bumped s o) as U. fold s' in U. destruct U as [(E1 & E2 & E3)|Lt].
+    + rewrite E1, E2, E3. auto.
+    + split; [lia|]. intros Q. lia.
+  - split; [lia|]. intros _. auto.
+Qed.
+Lemma binv_run ops : forall s, binv s -> binv (trun s ops).
+Proof. induction ops as [|o t IH]; intros s I; simpl; auto. apply IH, binv_step, I. Qed.
+Lemma binv_init : binv tinit.
+Proof. intros i H; discriminate. Qed.
+
+(* the exact accepted set of an in-range read through index bounds, for every history: accepted iff NO operation bumped
+   changeVersion since the look-up (rows added, removed, replaced, items updated, Clear, and the conservative no-op bumps all do) *)
+Lemma dt_bounds_accepted_iff_change_version_unchanged ops slot j :
+  let s := trun tinit ops in
+  bok (tbs s slot) = true -> (j < length (bids (tbs s slot)))%nat ->
+  (tstep s (TBoundsAt slot j) = (s, TAcc (Some (bval (tbs s slot)))) <-> bcsnap (tbs s slot) = cver s) /\
+  (bcsnap (tbs s slot) <> cver s -> tstep s (TBoundsAt slot j) = (s, TRej) /\ tstep s (TBoundsSum slot) = (s, TRej)).
+Proof.
+  intros s Hok Hj. pose proof (binv_run ops tinit binv_init slot Hok) as (L & R). fold s in L, R.
+  cbn [tstep]; cbv zeta. rewrite Hok. destruct (Nat.ltb_spec j (length (bids (tbs s slot)))) as [_|]; [|lia].
+  unfold bfresh. destruct (Nat.eqb_spec (bcsnap (tbs s slot)) (cver s)) as [E|E]; cbn [andb].
+  - destruct (R E) as (Er & _). rewrite Er, Nat.eqb_refl. split; [tauto|congruence].
+  - split; [split; [discriminate|congruence]|]. intros _. split; [reflexivity|].
+    destruct (bids (tbs s slot)); [simpl in Hj; lia|reflexivity].
+Qed.
+(* ... and then every row the bounds refer to is a row of the table holding the looked-up item: the read cannot touch a removed row *)
+Lemma dt_current_bounds_rows_live ops slot id :
+  let s := trun tinit ops in
+  bok (tbs s slot) = true -> bcsnap (tbs s slot) = cver s -> In id (bids (tbs s slot)) -> In (id, bval (tbs s slot)) (rows s).
+Proof. intros s Hok E. destruct (binv_run ops tinit binv_init slot Hok) as (_ & R). fold s in R. apply (R E). Qed.
+(* an out-of-range index is rejected whether or not the bounds are current (the index check comes first), nothing changes *)
+Lemma dt_bounds_out_of_range_rejected s slot j :
+  bok (tbs s slot) = true -> (length (bids (tbs s slot)) <= j)%nat -> tstep s (TBoundsAt slot j) = (s, TRej).
+Proof. intros Hok H. cbn [tstep]; cbv zeta. rewrite Hok. destruct (Nat.ltb_spec j (length (bids (tbs s slot)))); [lia|reflexivity]. Qed.
+(* witnesses: adding a row or updating an item invalidates earlier index bounds (changeVersion), although row references survive *)
+Lemma dt_addrow_invalidates_bounds_not_references :
+  snd (trun_out tinit [TAddRow 5; TAddRow 5; TFindMulti 5 20; TRef 0 0; TBoundsAt 20 1; TAddRow 6; TBoundsAt 20 1; TBoundsSum 20; TRead 0; TBoundsCount 20]) =
+  [TAcc None; TAcc None; TAcc (Some 2); TAcc None; TAcc (Some 5); TAcc None; TRej; TRej; TAcc (Some 5); TAcc (Some 2)].
+Proof. vm_compute. reflexivity. Qed.
